@@ -616,7 +616,13 @@ pub struct ExploreStats {
     pub restarts: u64,
     #[serde(default)]
     pub pruned: u64,
+    /// replays that diverged after the candidate set had grown in this process (not errors: the
+    /// plan is searched again with the larger set)
+    #[serde(default)]
+    pub diverged_after_growth: u64,
 }
+
+static GREW_IN_THIS_PROCESS: std::sync::atomic::AtomicBool = std::sync::atomic::AtomicBool::new(false);
 
 impl ExploreStats {
     pub fn merge(&mut self, o: ExploreStats) {
@@ -625,6 +631,7 @@ impl ExploreStats {
         self.steps += o.steps;
         self.max_points_per_execution = self.max_points_per_execution.max(o.max_points_per_execution);
         self.with_preemption += o.with_preemption;
+        self.diverged_after_growth += o.diverged_after_growth;
         for (k, v) in o.observations {
             *self.observations.entry(k).or_default() += v;
         }
@@ -671,9 +678,22 @@ pub fn explore_subtree(run: &mut RunFn, root: Vec<usize>, bound: usize, cap: u64
                 }
             }
         }
+        if x.grew {
+            GREW_IN_THIS_PROCESS.store(true, std::sync::atomic::Ordering::Relaxed);
+        }
         if let Some(a) = &x.abort {
             if a.starts_with("MACHINERY") {
-                st.failures.push((choices.clone(), a.clone()));
+                // prefixes recorded before the candidate set grew need not replay afterwards: the
+                // caller searches the plan again with the larger set, so this is not an error
+                if GREW_IN_THIS_PROCESS.load(std::sync::atomic::Ordering::Relaxed) {
+                    st.diverged_after_growth += 1;
+                    // the verdict of an aborted execution says nothing
+                    if let Some(pos) = st.failures.iter().rposition(|(c, _)| *c == choices) {
+                        st.failures.remove(pos);
+                    }
+                } else {
+                    st.failures.push((choices.clone(), a.clone()));
+                }
                 continue;
             }
         }
